@@ -286,6 +286,11 @@ func EnsureInterface(in interface{}, err error) (interface{}, error) {
 		return in, err
 	}
 	if v, ok := in.(reflect.Value); ok {
+		if v.Kind() == reflect.Ptr && !v.IsNil() && v.Elem().Kind() == reflect.Map {
+			// a reference to a map: maps are registered behind a pointer, the
+			// caller gets the map itself
+			v = v.Elem()
+		}
 		in = v.Interface()
 	}
 	if v, ok := in.(*_refHolder); ok {
